@@ -163,25 +163,28 @@ Proof.
   intros OK SZ. unfold second_request, restore, retry_request. rewrite (hdr_roundtrip h OK), SZ, take_app. reflexivity.
 Qed.
 
+(* a schedule for the answer that fails exactly j bytes into it (header: j < 40; body: j >= 40) *)
+Definition fail_at (j : N) : list N := if j =? 0 then [0] else if j <=? 40 then [j; 0] else [40; j - 40; 0].
+
 (* one attempt under ANY schedules, started from the request header: a complete answer is the genuine one; after a failure the
    server has handled the request or not, nothing else *)
 Lemma attempt_any ws rs h data pad now cc a b cc1 :
   hdr_ok h -> h_size h = lenN data -> srv_handle now h data cc = (a, b, cc1) -> hdr_ok a ->
   match attempt ws rs (hdr_bytes h) (data ++ pad) now cc with
   | (AReply x y, c') => x = a /\ y = b /\ c' = cc1
-  | (AFail _, c') => c' = cc \/ c' = cc1
+  | (AFail _ dm, c') => dm = data ++ pad /\ (c' = cc \/ c' = cc1)
   end.
 Proof.
   intros OK SZ S OKA. destruct (srv_handle_reply _ _ _ _ _ _ _ S) as [_ LR].
   unfold attempt. rewrite (hdr_roundtrip h OK). rewrite SZ, take_app, S.
   destruct (sock_xfer ws (hdr_bytes h ++ data) (40 + lenN data)) as [[[ok g] s2] r] eqn:X.
-  destruct ok; [|left; reflexivity].
+  destruct ok; [|split; [reflexivity|left; reflexivity]].
   destruct (sock_xfer rs (hdr_bytes a ++ b) 40) as [[[ok2 g2] s3] r3] eqn:X2.
-  destruct ok2; [|right; reflexivity].
+  destruct ok2; [|split; [reflexivity|right; reflexivity]].
   apply xfer_true in X2. destruct X2 as (G2 & R3 & _).
   change 40 with (lenN (hdr_bytes a)) in G2, R3. rewrite take_app in G2. rewrite drop_app in R3. subst g2 r3.
   destruct (sock_xfer s3 b (h_size a)) as [[[ok3 g3] s4] r4] eqn:X3.
-  destruct ok3; [|right; reflexivity].
+  destruct ok3; [|split; [reflexivity|right; reflexivity]].
   apply xfer_true in X3. destruct X3 as (G3 & _ & _). rewrite <- LR, take_all in G3. subst g3. repeat split.
 Qed.
 
@@ -200,18 +203,18 @@ Lemma transmit_any_schedule ws1 rs1 up ws2 rs2 h data pad now c rh rp c1 rh2 rp2
 Proof.
   intros OK SZ S1 OK1 S2 OK2. unfold transmit, restore.
   pose proof (attempt_any ws1 rs1 h data pad now c rh rp c1 OK SZ S1 OK1) as A1.
-  destruct (attempt ws1 rs1 (hdr_bytes h) (data ++ pad) now c) as [[x y|hb] c'] eqn:E1.
+  destruct (attempt ws1 rs1 (hdr_bytes h) (data ++ pad) now c) as [[x y|hb dm] c'] eqn:E1.
   - destruct A1 as (-> & -> & ->). left. repeat split.
-  - destruct up.
+  - destruct A1 as [-> A1]. destruct up.
     + destruct A1 as [-> | ->].
       * pose proof (attempt_any ws2 rs2 h data pad now c rh rp c1 OK SZ S1 OK1) as A2.
-        destruct (attempt ws2 rs2 (hdr_bytes h) (data ++ pad) now c) as [[x y|hb2] c''].
+        destruct (attempt ws2 rs2 (hdr_bytes h) (data ++ pad) now c) as [[x y|hb2 dm2] c''].
         -- destruct A2 as (-> & -> & ->). left. repeat split.
-        -- destruct A2 as [-> | ->]; [left; reflexivity|right; left; reflexivity].
+        -- destruct A2 as [_ [-> | ->]]; [left; reflexivity|right; left; reflexivity].
       * pose proof (attempt_any ws2 rs2 h data pad now c1 rh2 rp2 c2 OK SZ S2 OK2) as A2.
-        destruct (attempt ws2 rs2 (hdr_bytes h) (data ++ pad) now c1) as [[x y|hb2] c''].
+        destruct (attempt ws2 rs2 (hdr_bytes h) (data ++ pad) now c1) as [[x y|hb2 dm2] c''].
         -- destruct A2 as (-> & -> & ->). right. repeat split.
-        -- destruct A2 as [-> | ->]; [right; left; reflexivity|right; right; reflexivity].
+        -- destruct A2 as [_ [-> | ->]]; [right; left; reflexivity|right; right; reflexivity].
     + destruct A1 as [-> | ->]; [left; reflexivity|right; left; reflexivity].
 Qed.
 
@@ -228,9 +231,9 @@ Proof.
   intros P1 P2 OK SZ S1 OK1 S2 OK2. unfold transmit, restore.
   pose proof (attempt_any ws1 rs1 h data pad now c rh rp c1 OK SZ S1 OK1) as A1.
   assert (h_size h <= lenN (data ++ pad)) as LE by (rewrite lenN_app; lia).
-  destruct (attempt ws1 rs1 (hdr_bytes h) (data ++ pad) now c) as [[x y|hb] c'] eqn:E1.
+  destruct (attempt ws1 rs1 (hdr_bytes h) (data ++ pad) now c) as [[x y|hb dm] c'] eqn:E1.
   - destruct A1 as (-> & -> & ->). left. reflexivity.
-  - destruct A1 as [-> | ->].
+  - destruct A1 as [-> [-> | ->]].
     + left. rewrite (attempt_ok ws2 rs2 h (data ++ pad) now c rh rp c1); try assumption; [reflexivity|].
       rewrite SZ, take_app. exact S1.
     + right. rewrite (attempt_ok ws2 rs2 h (data ++ pad) now c1 rh2 rp2 c2); try assumption; [reflexivity|].
@@ -242,3 +245,17 @@ Definition request_op (o : N) : Prop := o < 5.
 (* what tcp_cache::fetch makes of an `error` answer (unknown opcode, refused frame): not found - never a value *)
 Lemma error_answer_is_a_miss tif want : dec_fetch tif want (hdr0 op_error) [] = FNotFound.
 Proof. destruct tif; reflexivity. Qed.
+
+(* ANY single failure point of the first attempt - while the request goes out, anywhere in the answer header, anywhere in the
+   answer BODY (every schedule: every point) - leaves header copy and request string such that the retry re-sends exactly the
+   original request: header AND payload *)
+Lemma retry_after_any_failure_resends_the_request ws rs h data pad now c hb dm c' :
+  hdr_ok h -> h_size h = lenN data ->
+  (forall rh rp c1, srv_handle now h data c = (rh, rp, c1) -> hdr_ok rh) ->
+  attempt ws rs (hdr_bytes h) (data ++ pad) now c = (AFail hb dm, c') ->
+  dm = data ++ pad /\ second_request h hb dm = Some (h, data).
+Proof.
+  intros OK SZ OKR E. destruct (srv_handle now h data c) as [[rh rp] c1] eqn:S.
+  pose proof (attempt_any ws rs h data pad now c rh rp c1 OK SZ S (OKR _ _ _ eq_refl)) as A. rewrite E in A.
+  destruct A as [-> _]. split; [reflexivity|]. apply retry_sends_exactly_the_request; assumption.
+Qed.
